@@ -379,6 +379,24 @@ def r194(db, ctx, F):
                     ctx.ok('R19.4', f, f'{meth.split(">::")[1]} delegates to {inner} of the row iterator', ['map(Self::get)'] if not meth.endswith('len') else [])
                 else:
                     ctx.fail('R19.4', f, 'iterator delegation', f'{meth} does not delegate to {inner}: {X.show(e)}')
+            # any further method of the iterator traits that the impl overrides (size_hint, nth, nth_back, count, ..) forwards to the method
+            # of the same name of the wrapped row iterator: a forward method answered by a backward one (or vice versa) changes which rows
+            # `rev().skip(k)`, `step_by` and `nth` visit
+            for f in db.fns.values():
+                if not (f.path.startswith(f'<{base}<') and ' as core::iter::traits::' in f.path and f.kind == 'AssocFn') or f.promoted_of:
+                    continue
+                mname = f.path.rsplit('::', 1)[-1]
+                if mname in ('next', 'next_back', 'len'):
+                    continue
+                Rf = X.Rec(f)
+                inner_calls = [(f.callee_short(t) or '') for _, t in f.calls() if t['args'] and m(('fld', ('p', 1), 'it'), norm(Rf.operand(t['args'][0]))) is not None]
+                if not inner_calls:
+                    ctx.fail('R19.4', f, 'iterator delegation', f'reason=unrecognised-shape: {mname} does not go through the wrapped row iterator')
+                elif all(c.rsplit('::', 1)[-1] == mname for c in inner_calls):
+                    ctx.ok('R19.4', f, f'{mname} delegates to {mname} of the row iterator')
+                else:
+                    ctx.fail('R19.4', f, 'iterator delegation', f'{mname} is answered by {sorted(set(c.rsplit("::", 1)[-1] for c in inner_calls))} of the row iterator: '
+                             'rows are taken from the wrong end / in the wrong order')
         except KeyError as ex:
             ctx.fail('R19.4', base, 'iterator pieces', f'reason=anchor-missing: {ex}')
     ctx.floor('R19.4', n, 10, 'accessor / iterator delegation instances')
